@@ -145,7 +145,7 @@ def render(prog, prints=True):
         d = decls[mut["d"] - 1]
         old = d["pre"][mut["k"] - 1]
         new = mut["rec"]
-        frm, to = (old["b"], new["b"]) if old["r"] == "+L" else (old["a"], new["a"])
+        frm, to = (old["b"], new["b"]) if old["r"] in ("+L", "&R") else (old["a"], new["a"])
         renames[mut["d"] - 1] = (mut["k"] - 1, frm, to)
     elif mut:
         d = decls[mut["d"] - 1]
